@@ -27,7 +27,7 @@ func verifFindingZeroLen(sut, ref verifBufW) {
 	verif.Assert("size-after-empty-write", sut.Size() == ref.Size())
 }
 
-// VerifBufferReadWriterZeroLengthWritePastEnd: regression check of the fixed finding.
-func VerifBufferReadWriterZeroLengthWritePastEnd() {
+// VerifFindingBufferReadWriterZeroLengthWritePastEnd: regression check of the fixed finding.
+func VerifFindingBufferReadWriterZeroLengthWritePastEnd() {
 	verifFindingZeroLen(base.NewBufferReadWriter(uint64(verif.Len("capacity", 0, 2))), verifRefFile(nil))
 }
